@@ -23,12 +23,19 @@ import (
 // listing order and concurrency.
 //
 // Case: blocks[i] = {src: [source numbers], grp: group number}; position = ULID rank. gmode says
-// how groups differ (labels | resolution), useed seeds the ULID entropy.
+// how groups differ (labels | resolution | replica), useed seeds the ULID entropy.
+//
+// gmode "replica" (phase 2) is the compactor's real chain with --deduplication.replica-label: the
+// blocks of different "groups" differ ONLY in the replica label, ReplicaLabelRemover runs before the
+// duplicate filter (as in cmd/thanos/compact.go), so they all fall into ONE compaction group; the
+// line's eff[i] is the effective group of block i that the judge uses. The metas given to the chain
+// are shared with the fetcher's cache in production, so the harness also reports whether the chain
+// modified them in place (mutated; informational, DRIFT).
 func TestC31(t *testing.T) {
 	rnd := vt.Rand()
 	gen := func(yield func(vt.Case)) {
 		for _, c := range vt.TLCCases(t) {
-			c["gmode"] = []string{"labels", "resolution"}[rnd.Intn(2)]
+			c["gmode"] = []string{"labels", "resolution", "replica"}[rnd.Intn(3)]
 			c["useed"] = rnd.Int63n(1 << 40)
 			yield(c)
 		}
@@ -53,7 +60,7 @@ func TestC31(t *testing.T) {
 				}
 				bl[k] = map[string]any{"src": src, "grp": 1 + rnd.Intn(ngrp)}
 			}
-			yield(vt.Case{"blocks": bl, "gmode": []string{"labels", "resolution"}[rnd.Intn(2)], "useed": rnd.Int63n(1 << 40)})
+			yield(vt.Case{"blocks": bl, "gmode": []string{"labels", "resolution", "replica"}[rnd.Intn(3)], "useed": rnd.Int63n(1 << 40)})
 		}
 	}
 	reps := vt.Pick(3, 5)
@@ -83,6 +90,15 @@ func TestC31(t *testing.T) {
 			blks = append(blks, b)
 		}
 		seen := map[string]bool{}
+		mutated := false
+		eff := []int{}
+		for _, b := range blks {
+			if gmode == "replica" {
+				eff = append(eff, 1)
+			} else {
+				eff = append(eff, b.grp)
+			}
+		}
 		outs := []map[string]any{}
 		runs := 0
 		for conc := 1; conc <= 4; conc++ {
@@ -94,17 +110,41 @@ func TestC31(t *testing.T) {
 					m.Compaction.Sources = append([]ulid.ULID(nil), b.src...)
 					m.Compaction.Level = 1 + len(b.src)
 					m.Thanos.Labels = map[string]string{"cluster": "c"}
-					if gmode == "labels" {
+					switch gmode {
+					case "labels":
 						m.Thanos.Labels["g"] = fmt.Sprint(b.grp)
-					} else {
+					case "replica":
+						m.Thanos.Labels["replica"] = fmt.Sprint(b.grp)
+					default:
 						m.Thanos.Downsample.Resolution = int64(b.grp-1) * 300000
 					}
 					metas[b.id] = m
 				}
+				orig := map[ulid.ULID]*metadata.Meta{}
+				for id, m := range metas {
+					orig[id] = m
+				}
 				f := block.NewDeduplicateFilter(conc)
 				g := prometheus.NewGaugeVec(prometheus.GaugeOpts{Name: "x"}, []string{"state"})
+				if gmode == "replica" {
+					if err := block.NewReplicaLabelRemover(NopLogger(), []string{"replica"}).Filter(context.Background(), metas, g, g); err != nil {
+						t.Fatalf("replica label remover: %v", err)
+					}
+				}
 				if err := f.Filter(context.Background(), metas, g, g); err != nil {
 					t.Fatalf("filter: %v", err)
+				}
+				if gmode == "replica" {
+					for _, b := range blks {
+						if orig[b.id].Thanos.Labels["replica"] != fmt.Sprint(b.grp) {
+							mutated = true // the chain changed a meta it shares with the fetcher's cache
+						}
+						if m, ok := metas[b.id]; ok {
+							if _, has := m.Thanos.Labels["replica"]; has {
+								mutated = true // the view handed on still carries the replica label
+							}
+						}
+					}
 				}
 				kept, dups := []int{}, []int{}
 				for id := range metas {
@@ -122,6 +162,6 @@ func TestC31(t *testing.T) {
 				}
 			}
 		}
-		return vt.Event{"outs": outs, "runs": runs}
+		return vt.Event{"outs": outs, "runs": runs, "eff": eff, "mutated": mutated}
 	})
 }
